@@ -7,6 +7,11 @@ import subprocess
 import tempfile
 import time
 
+try:
+    from det import real_time as _now
+except ImportError:  # pragma: no cover
+    _now = time.time
+
 SPEC = os.path.join(os.path.dirname(os.path.dirname(os.path.abspath(__file__))), 'spec')
 JAR = '/opt/veriftools/tla/tla2tools.jar'
 CM = '/opt/veriftools/tla/CommunityModules-deps.jar'
@@ -25,14 +30,20 @@ def _classpath():
     return ':'.join(cps)
 
 
-def run_tlc(module, cfg_text, workers=16, env=None, timeout=1800, extra=(), heap='8g', simulate=None):
+def run_tlc(module, cfg_text, workers=16, env=None, timeout=1800, extra=(), heap='8g', simulate=None,
+            aux_modules=None):
     """Run TLC on spec/<module>.tla with the given cfg text.  Returns (stdout, stats)."""
     work = tempfile.mkdtemp(prefix='verif-tlc-')
     try:
         cfg = os.path.join(work, module + '.cfg')
         with open(cfg, 'w') as f:
             f.write(cfg_text)
-        cmd = ['java', '-Xmx' + heap, '-XX:+UseParallelGC', '-cp', _classpath(), 'tlc2.TLC',
+        for (name, text) in (aux_modules or {}).items():
+            with open(os.path.join(work, name + '.tla'), 'w') as f:
+                f.write(text)
+        gct = max(2, min(16, workers))
+        cmd = ['java', '-Xmx' + heap, '-XX:+UseParallelGC', '-XX:ParallelGCThreads=%d' % gct,
+               '-XX:CICompilerCount=2', '-DTLA-Library=' + work, '-cp', _classpath(), 'tlc2.TLC',
                '-workers', str(workers), '-metadir', os.path.join(work, 'meta'),
                '-noGenerateSpecTE', '-config', cfg]
         if simulate:
@@ -42,12 +53,12 @@ def run_tlc(module, cfg_text, workers=16, env=None, timeout=1800, extra=(), heap
         e = dict(os.environ)
         if env:
             e.update(env)
-        t0 = time.time()
+        t0 = _now()
         p = subprocess.run(cmd, cwd=SPEC, env=e, stdout=subprocess.PIPE, stderr=subprocess.STDOUT,
                            timeout=timeout, check=False)
         out = p.stdout.decode('utf-8', 'replace')
         stats = parse_stats(out)
-        stats['wall_s'] = round(time.time() - t0, 2)
+        stats['wall_s'] = round(_now() - t0, 2)
         stats['exit'] = p.returncode
         return out, stats
     finally:
